@@ -1382,3 +1382,81 @@ func ruleMatMul(w *World, r *Report) {
 }
 
 func resolve2(v ssa.Value) ssa.Value { return stripConv(v) }
+
+// ---------------------------------------------------------------- FOLD-EXACT (C01)
+
+// ruleFoldExact: longitude 180 (and only 180) is folded onto -180: the branch
+// that replaces the longitude by its negation is controlled by an exact
+// comparison of the longitude with the constant 180 (== or >=), not by a
+// tolerance test.
+func ruleFoldExact(w *World, r *Report, cl map[*ssa.Function]bool) {
+	r.Rule("FOLD-EXACT", "in the point lookup the antimeridian fold (longitude replaced by its negation) is controlled by an exact comparison lon == 180 (or lon >= 180) on the longitude itself: a tolerance test folds longitudes just below 180 into column 0")
+	ke := kindsFor(w)
+	n := 0
+	for _, f := range sortedFuncSet(w, cl) {
+		if f.Blocks == nil || f.Synthetic != "" {
+			continue
+		}
+		instrs(f, func(in ssa.Instruction) {
+			p, ok := in.(*ssa.Phi)
+			if !ok || !isFloatType(p.Type()) || len(p.Edges) != 2 {
+				return
+			}
+			// phi(lon, -lon | -180)
+			altIdx := -1
+			for i := 0; i < 2; i++ {
+				self, alt := p.Edges[1-i], p.Edges[i]
+				a := ke.Eval(self)
+				if a == nil || a.Scalar != ks(kLON) {
+					continue
+				}
+				if k, isK := constFloat(alt); isK && k == -180 {
+					altIdx = i
+				}
+				if u, isU := alt.(*ssa.UnOp); isU && u.Op == token.SUB && resolve(u.X) == resolve(self) {
+					altIdx = i
+				}
+			}
+			if altIdx < 0 {
+				return
+			}
+			self := p.Edges[1-altIdx]
+			n++
+			key := fmt.Sprintf("%s / longitude fold#%d", w.FuncName(f), n)
+			status, detail := Info, "the condition controlling the fold could not be located"
+			altPred := p.Block().Preds[altIdx]
+			for _, blk := range f.Blocks {
+				t, fl, ifi := ifSuccs(blk)
+				if ifi == nil || t == fl {
+					continue
+				}
+				var side *ssa.BasicBlock
+				switch {
+				case t == altPred || (blk == altPred && t == p.Block()):
+					side = t
+				case fl == altPred || (blk == altPred && fl == p.Block()):
+					side = fl
+				default:
+					continue
+				}
+				c, isCmp := ifi.Cond.(*ssa.BinOp)
+				if !isCmp {
+					status, detail = Violated, "the fold is controlled by "+describeValue(ifi.Cond)+", not by an exact comparison of the longitude with 180"
+					continue
+				}
+				k, isK := constFloat(c.Y)
+				lon := resolve(c.X) == resolve(self)
+				exact := (side == t && (c.Op == token.EQL || c.Op == token.GEQ)) || (side == fl && (c.Op == token.NEQ || c.Op == token.LSS))
+				if lon && isK && k == 180 && exact {
+					status, detail = Discharged, "fold guarded by an exact comparison with 180"
+				} else {
+					status, detail = Violated, "the fold is controlled by "+shortInstr(c)+", not by an exact comparison of the longitude with 180"
+				}
+			}
+			r.add("FOLD-EXACT", key, w.Pos(p.Pos()), status, detail)
+		})
+	}
+	if n == 0 {
+		r.add("FOLD-EXACT", "point lookup", "-", Info, "no negation of a longitude found in the closure")
+	}
+}
